@@ -89,7 +89,7 @@ func NewPublishMock(t testing.TB, want ...Transfer) func(quit <-chan struct{}, m
 		}
 		transfer := want[i]
 
-		if !bytes.Equal(message, transfer.Message) && topic != transfer.Topic {
+		if !bytes.Equal(message, transfer.Message) || topic != transfer.Topic {
 			t.Errorf("got MQTT publish of %#x to %q, want %#x to %q", message, topic, transfer.Message, transfer.Topic)
 		}
 		return transfer.Err
